@@ -178,13 +178,21 @@ def r3_kind_agreement(r, facts):
                 continue
             fe = ExprBuilder(f, multi='phi')
             froles = ROLES_FILL[ftr]
+            # the kind the kernel is asked for: create_flags (file_index = ALLOC for direct descriptors); cloexec_flag alone
+            # only adds O_CLOEXEC for regular descriptors and requests nothing
             ksubs = set()
+            kcloexec = set()
             for l2, t2 in f.calls():
                 n = t2.get('callee') or ''
-                if n in ('fd::Kind::create_flags', 'fd::Kind::cloexec_flag', 'io_uring::fd::<impl fd::Kind>::create_flags'):
+                if n in ('fd::Kind::create_flags', 'io_uring::fd::<impl fd::Kind>::create_flags'):
                     rr = role_roots(f, froles, fe.operand(t2['args'][0]))
                     ksubs |= {x for x in rr if x[0] != 'call' or 'kind' in x[1]}
-            if not ksubs:
+                if n == 'fd::Kind::cloexec_flag':
+                    rr = role_roots(f, froles, fe.operand(t2['args'][0]))
+                    kcloexec |= {x for x in rr if x[0] != 'call' or 'kind' in x[1]}
+            if not ksubs and kcloexec and not any(x[0] == 'const' for x in kmap):
+                detail.append('fill_submission never calls create_flags for the kind %s the result is wrapped as' % sorted(map(str, kmap)))
+            elif not ksubs:
                 # constant kinds: decided by the opcode
                 fm = sqe.flowmap(f, facts, sub_param=max(froles))
                 opc = fm.get(0, {}).get('consts', set())
@@ -197,7 +205,7 @@ def r3_kind_agreement(r, facts):
                     detail.append('const Direct with opcode %s off=%s' % (sorted(opc), sorted(fm.get(8, {}).get('consts', set()))))
             else:
                 norm = lambda s: {(x[0], x[1], x[2] if len(x) > 2 else None) for x in s}
-                ok = norm(ksubs) == norm(kmap)
+                ok = norm(ksubs) == norm(kmap) and (not kcloexec or norm(kcloexec) == norm(kmap))
                 detail.append('fill kind %s vs map kind %s' % (sorted(map(str, ksubs)), sorted(map(str, kmap))))
         r.inst('%s: %s' % (op, '; '.join(detail)), g.where(loc))
         r.require(ok, 'kind:%s' % op, 'the descriptor kind requested in fill_submission and the kind the result is wrapped as differ for %s (%s)' % (op, '; '.join(detail)), g.where(loc))
